@@ -6,27 +6,36 @@ From Verif Require Import C15.Model C15.Spec C15.Proofs C15.Proofs_maps C15.Proo
 Import ListNotations.
 Open Scope Z_scope.
 
-(* an accepted deletion: the quota had no child and no pod, and is no longer recorded *)
+(* an accepted deletion: the quota had no child and no bound pod (labelled, in the namespace
+   named like it, or in a namespace it declares), and is no longer recorded *)
 Lemma delete_guard s pods q : WF s -> accepted s (pods, Delete q) = true ->
   (forall c, ~ child_of (infos s) (q_name q) c)
-  /\ existsb (fun p => fst p =? q_name q) pods = false
+  /\ has_pods pods (q_name q) (ann_ns q) = false
   /\ find (q_name q) (infos (step s (pods, Delete q))) = None.
 Proof.
   intros W A. unfold accepted in A. apply Z.leb_le in A. cbn [code fst snd] in A.
   apply delete_code_range in A.
-  destruct (delete_code_facts _ _ _ A) as [XR [[xi FX] [HX NP]]].
-  repeat split; [|exact NP|].
+  destruct (delete_code_facts _ _ _ A) as [XR [[xi FX] [HX [NP NB]]]].
+  repeat split; [|exact NB|].
   - intros c Hc. pose proof (wf_child_in_kids s W _ c XR Hc) as Hk.
     unfold kids in Hk. rewrite HX in Hk. destruct Hk.
   - unfold step. cbn [code fst snd]. rewrite A. cbn [Z.eqb].
     unfold delete_apply. rewrite FX. cbn [infos]. apply find_mremove_eq.
 Qed.
 
+Lemma has_pods_label pods name nss :
+  has_pods pods name nss = false -> existsb (fun p => fst p =? name) pods = false.
+Proof.
+  unfold has_pods. intro H. apply orb_false_iff in H. destruct H as [H _].
+  apply orb_false_iff in H. tauto.
+Qed.
+
 Lemma delete_guard_okb s pods q : WF s -> ksorted (infos s) ->
   accepted s (pods, Delete q) = true ->
   delete_guard_ok s (step s (pods, Delete q)) pods q = true.
 Proof.
-  intros W S A. destruct (delete_guard s pods q W A) as [NOCH [NP GONE]].
+  intros W S A. destruct (delete_guard s pods q W A) as [NOCH [NB GONE]].
+  pose proof (has_pods_label _ _ _ NB) as NP.
   unfold delete_guard_ok. rewrite NP. unfold mem. rewrite GONE. cbn [negb]. rewrite !andb_true_r.
   apply forallb_forall. intros [c ic] Hin. cbn [fst snd].
   destruct (Z.eqb_spec c ROOT) as [|N]; [reflexivity|]. cbn [orb]. apply negb_true_iff.
@@ -66,31 +75,19 @@ Lemma same_topo_refl s : same_topo s s = true.
 Proof. apply eq_listZ_refl. Qed.
 
 (* ------------------------------------------------------------------ the model's own traces *)
-Definition no_nsbound_delete (rs : list req) : bool := forallb (fun r => negb (nsbound_delete r)) rs.
-
-(* on the model's own trace every clause holds except possibly 21 (a deletion accepted while pods
-   are bound through a namespace); without such deletions everything holds *)
-Lemma hist_code_trace rs : forall s st cn pend,
-  WF s -> sorted_topo s -> ksorted st -> (cn = true -> NsOK st s) ->
-  (hist_code s st cn pend rs (trace s rs) = pend \/ hist_code s st cn pend rs (trace s rs) = 21)
-  /\ (no_nsbound_delete rs = true -> hist_code s st cn pend rs (trace s rs) = pend).
+Lemma nsbound_accepted s r : WF s -> accepted s r = true -> nsbound_delete r = false.
 Proof.
-  induction rs as [|r rs IH]; intros s st cn pend W S SS N; cbn [trace hist_code]; [auto|].
+  intros W A. destruct r as [pods [q|o n|q]]; try reflexivity.
+  unfold nsbound_delete. cbn [fst snd]. now destruct (delete_guard s pods q W A) as [_ [NB _]].
+Qed.
+
+Lemma hist_code_trace rs : forall s st cn,
+  WF s -> sorted_topo s -> ksorted st -> (cn = true -> NsOK st s) ->
+  hist_code s st cn rs (trace s rs) = 0.
+Proof.
+  induction rs as [|r rs IH]; intros s st cn W S SS N; cbn [trace hist_code]; [reflexivity|].
   pose proof (WF_step s r W) as W'. pose proof (sorted_step s r S) as S'.
   rewrite (wf_code_complete _ (proj1 S') W'). cbn [Z.eqb negb].
-  assert (forall st' cn' pend', ksorted st' -> (cn' = true -> NsOK st' (step s r)) ->
-            (pend' = pend \/ pend' = 21) -> (negb (nsbound_delete r) = true -> pend' = pend) ->
-            (hist_code (step s r) st' cn' pend' rs (trace (step s r) rs) = pend
-             \/ hist_code (step s r) st' cn' pend' rs (trace (step s r) rs) = 21)
-            /\ (no_nsbound_delete (r :: rs) = true ->
-                hist_code (step s r) st' cn' pend' rs (trace (step s r) rs) = pend)) as K.
-  { intros st' cn' pend' SS' N' D1 D2.
-    destruct (IH (step s r) st' cn' pend' W' S' SS' N') as [[E|E] I2].
-    - split; [destruct D1 as [<-|D1]; [now left|right; congruence]|].
-      cbn [no_nsbound_delete forallb]. intro H. apply andb_true_iff in H. destruct H as [H1 H2].
-      rewrite (I2 H2). now apply D2.
-    - split; [now right|]. cbn [no_nsbound_delete forallb]. intro H.
-      apply andb_true_iff in H. destruct H as [H1 H2]. rewrite (I2 H2). now apply D2. }
   destruct (accepted s r) eqn:A; cbn [negb andb].
   - assert (match snd r with
             | Delete q => negb (delete_guard_ok s (step s r) (fst r) q)
@@ -98,34 +95,26 @@ Proof.
             end = false) as DG.
     { destruct r as [pods [q|o n|q]]; cbn [fst snd]; try reflexivity.
       apply negb_false_iff. apply delete_guard_okb; [exact W|exact (proj1 S)|exact A]. }
-    rewrite DG.
-    assert ((if nsbound_delete r then 21 else pend) = pend
-            \/ (if nsbound_delete r then 21 else pend) = 21) as D1
-      by (destruct (nsbound_delete r); auto).
-    assert (negb (nsbound_delete r) = true -> (if nsbound_delete r then 21 else pend) = pend) as D2
-      by (destruct (nsbound_delete r); [discriminate|reflexivity]).
+    rewrite DG, (nsbound_accepted s r W A).
     destruct (cn && consistent1 st true r) eqn:C; cbn [andb].
     + apply andb_true_iff in C. destruct C as [-> C].
       assert (NsOK (store_step st true r) (step s r)) as N'.
       { rewrite <- A. apply NsOK_step; [now apply N|now rewrite A]. }
       rewrite ns_okb_complete; [|now apply ksorted_store_step|exact (proj2 (proj2 S'))|exact N'].
-      cbn [negb]. apply K; auto. now apply ksorted_store_step.
-    + apply K; auto; [now apply ksorted_store_step|discriminate].
+      cbn [negb]. apply IH; auto. now apply ksorted_store_step.
+    + apply IH; auto; [now apply ksorted_store_step|discriminate].
   - pose proof (reject_frame _ _ A) as RF.
     assert (same_topo s (step s r) = true) as ST by (rewrite RF; apply same_topo_refl).
     rewrite ST. cbn [negb].
     unfold consistent1, store_step. cbn [negb orb]. rewrite andb_true_r.
-    assert (nsbound_delete r && false = false) as _ by apply andb_false_r.
     destruct cn; cbn [andb].
     + rewrite ns_okb_complete;
         [|exact SS|exact (proj2 (proj2 S'))|rewrite RF; now apply N].
-      cbn [negb]. apply K; auto. rewrite RF. exact N.
-    + apply K; auto. discriminate.
+      cbn [negb]. apply IH; auto. rewrite RF. exact N.
+    + apply IH; auto. discriminate.
 Qed.
 
-Lemma prop_code_trace g rs :
-  (prop_code g rs (trace (init_topo g) rs) = 0 \/ prop_code g rs (trace (init_topo g) rs) = 21)
-  /\ (no_nsbound_delete rs = true -> prop_code g rs (trace (init_topo g) rs) = 0).
+Lemma prop_code_trace g rs : prop_code g rs (trace (init_topo g) rs) = 0.
 Proof.
   unfold prop_code. apply hist_code_trace.
   - apply WF_init.
